@@ -24,6 +24,15 @@ type Batch struct {
 	committed      bool                  // 已提交标识
 	batchID        snowflake.ID          // 批次唯一ID
 	cachedDataSize int64                 // 当前已缓存数据量
+	flushed        []flushedRecord       // 已提前刷新到磁盘但尚未提交的记录, 提交时才更新索引
+}
+
+// 批处理数据量超过数据文件容量时会提前刷新一部分暂存数据
+// 这部分记录在提交前不能更新到索引: 批处理尚未提交, 其他读取方以及 merge 的有效性判断都不应观察到它们
+type flushedRecord struct {
+	key []byte
+	typ datafile.LogRecordType
+	pos *datafile.DataPos
 }
 
 func (db *DB) NewBatch(options BatchOptions) *Batch {
@@ -123,7 +132,16 @@ func (b *Batch) Get(key []byte) ([]byte, error) {
 	}
 
 	// 记录未缓存则执行查询
-	pos := b.db.index.Get(key)
+	// 优先查询本批次已提前刷新的记录
+	var pos *datafile.DataPos
+	if fr := b.findFlushedRecord(key); fr != nil {
+		if fr.typ == datafile.LogRecordDeleted {
+			return nil, ErrKeyNotFound
+		}
+		pos = fr.pos
+	} else {
+		pos = b.db.index.Get(key)
+	}
 	if pos == nil {
 		return nil, ErrKeyNotFound
 	}
@@ -165,8 +183,12 @@ func (b *Batch) Delete(key []byte) error {
 	}
 
 	// 记录未缓存则执行删除
-	pos := b.db.index.Get(key)
-	if pos == nil {
+	// key 的当前状态以本批次已提前刷新的记录为准
+	if fr := b.findFlushedRecord(key); fr != nil {
+		if fr.typ == datafile.LogRecordDeleted {
+			return nil
+		}
+	} else if pos := b.db.index.Get(key); pos == nil {
 		return nil
 	}
 
@@ -227,6 +249,9 @@ func (b *Batch) Commit() error {
 		}
 	}
 
+	// 批处理完成标识写入后批处理才算提交, 此时按写入顺序统一更新索引
+	b.applyFlushed()
+
 	b.staged = nil
 	b.stageIndex = nil
 	b.committed = true
@@ -257,6 +282,35 @@ func (b *Batch) addPendingRecord(key []byte, record *datafile.LogRecord) {
 	}
 	hashKey := xxhash.Sum64(key)
 	b.stageIndex[hashKey] = append(b.stageIndex[hashKey], len(b.staged)-1)
+}
+
+// 从已提前刷新的记录中查找 key 对应的最新记录
+func (b *Batch) findFlushedRecord(key []byte) *flushedRecord {
+	for i := len(b.flushed) - 1; i >= 0; i-- {
+		if bytes.Equal(b.flushed[i].key, key) {
+			return &b.flushed[i]
+		}
+	}
+	return nil
+}
+
+// 提交时按写入顺序将本批次的全部记录更新到索引, 并维护数据量统计
+func (b *Batch) applyFlushed() {
+	for _, fr := range b.flushed {
+		// 维护总数据量, 与无效数据量保持一致
+		b.db.totalSize += int64(fr.pos.Size)
+		var pos *datafile.DataPos
+		if fr.typ == datafile.LogRecordDeleted {
+			pos = b.db.index.Delete(fr.key)
+			b.db.reclaimSize += int64(fr.pos.Size)
+		} else {
+			pos = b.db.index.Put(fr.key, fr.pos)
+		}
+		if pos != nil {
+			b.db.reclaimSize += int64(pos.Size)
+		}
+	}
+	b.flushed = nil
 }
 
 // 刷新缓存并更新活跃文件
@@ -304,20 +358,10 @@ func (b *Batch) flushStaged() error {
 		}
 	}
 
-	// 追加操作全部完成后, 更新索引
+	// 记录位置信息, 索引在提交时统一更新
 	for i, record := range b.staged {
-		// 维护总数据量, 与无效数据量保持一致
-		b.db.totalSize += int64(dataPos[i].Size)
-		var pos *datafile.DataPos
-		if record.Type == datafile.LogRecordDeleted {
-			pos = b.db.index.Delete(record.Key)
-			b.db.reclaimSize += int64(dataPos[i].Size)
-		} else {
-			pos = b.db.index.Put(record.Key, dataPos[i])
-		}
-		if pos != nil {
-			b.db.reclaimSize += int64(pos.Size)
-		}
+		// record.Key 是本批次私有的拷贝, 归还缓冲池时不会被复用
+		b.flushed = append(b.flushed, flushedRecord{key: record.Key, typ: record.Type, pos: dataPos[i]})
 		// 写入完成后将结构体归还缓冲池
 		b.db.putRecordToPool(record)
 	}
